@@ -362,6 +362,15 @@ class Gen:
                 inner = Scope(sc); inner.vars = dict(sc.vars)
                 inner.vars[x] = Var(x, ek if ek in KINDS else "opaque", protected=True)
                 body = self.body(inner, d)
+                if result_var is not None and self.chance(0.5):
+                    # the loop's value comes from a nested value loop that runs zero times on some passes:
+                    # its result register is the outer one and still holds the previous pass' value
+                    j = self.fresh("j")
+                    n_in = self.rng.randint(0, 3)
+                    cnt = self.fresh("n")
+                    body = [("opassign", "+", ("var", cnt), ("int", 1))] + body + [("for", [("var", j)], ("range", ("var", cnt), ("int", n_in), False), [("bin", "*", ("var", j), ("int", 10))])]
+                    prefix = prefix + [("assign", ("var", cnt), ("int", 0))]
+                    sc.vars[cnt] = Var(cnt, "int", protected=True)
                 xt = ("var", x)
                 if "hints" in self.features and ek in KINDS and self.chance(0.5):
                     xt = ("var", x, self.hint_for(ek))
